@@ -70,6 +70,7 @@ type PathState struct {
 	LastModel    Model
 	Notes        []string
 	NoteVals     []Str
+	NoteInts     map[int][]*Term // index into NoteVals -> integers appended to that note
 	Aux          []*Term
 	ModelPCLen   int
 }
